@@ -38,8 +38,10 @@ Qed.
 Lemma safe_dcall c : safe (dcall c). Proof. intros s. apply good_ok. Qed.
 Lemma safe_must m : safe m -> safe (must m).
 Proof. intros H. unfold must. apply safe_bind'; [exact H|]. intros []; [apply safe_ret|apply safe_fail]. Qed.
-Lemma safe_find_ref n : safe (find_ref n). Proof. intros s. apply good_ok. Qed.
-Lemma safe_disamb p h : safe (disambiguate_prefix p h). Proof. intros s. apply good_ok. Qed.
+Lemma safe_find_ref n : safe (find_ref n).
+Proof. intros s. unfold find_ref, dcall. destruct (match answers s with [] => true | a :: _ => a end); apply good_ok. Qed.
+Lemma safe_disamb p h : safe (disambiguate_prefix p h).
+Proof. intros s. unfold disambiguate_prefix, dcall. destruct (match answers s with [] => true | a :: _ => a end); apply good_ok. Qed.
 Lemma safe_done : safe done. Proof. intros s. apply good_ok. Qed.
 Lemma safe_get_done : safe get_done. Proof. intros s. apply good_ok. Qed.
 Lemma safe_tlp : safe take_last_prefix. Proof. intros s. apply good_ok. Qed.
@@ -316,7 +318,7 @@ Qed.
 
 Lemma safe_revision input : safe (revision date input).
 Proof.
-  unfold revision.
+  unfold revision, colon_form.
   match goal with |- safe (match ?c with Some m => m | None => ?rest end) => set (colon := c); set (R := rest) end.
   assert (Hcolon : match colon with Some m => safe m | None => True end).
   { subst colon. destruct input as [|c t]; [exact I|]. destruct (beqb c c_colon); [|exact I].
